@@ -74,13 +74,21 @@ def run(ctx):
         if not ({r: v[1] for r, v in la.items()} == {repr(i_f): 1} and ca == 1):
             probs.append("the acceptance draw `gen_range(%s)` has %s outcomes; Algorithm R needs i + 1 (the item with 0-based index i is kept with probability k/(i+1)) — with %s outcomes item k+1 is always accepted"
                          % (fmt_range(rng), fmt(card), fmt(card)))
-        facts = pe.path_facts(p)
+        from .common import full_reservoir_facts
+        facts0 = pe.path_facts(p)
+        facts = [x for x in full_reservoir_facts(facts0) if x not in facts0 or not any(s_[0] == "call" and s_[1].endswith("Vec::len") for s_ in subterms(x[0]))]
         acc = [(c, t) for c, t in facts if c[0] == "op" and c[1] in ("Lt", "Le") and any(s[0] == "call" and s[1].endswith("gen_range") for s in subterms(c))]
         if len(acc) != 1 or acc[0][0][1] != "Lt" or acc[0][0][2][1] != k_f:
             probs.append("acceptance test is %s, expected j < k" % (fmt(acc[0][0]) if acc else "missing"))
             continue
         j = acc[0][0][2][0]
         stores = [e for e in p.events if e["kind"] == "write" and e.get("name") == "index_mut" and self_field(e) == "reservoir"]
+        gm = [e for e in p.events if e["kind"] == "write" and e.get("name") == "get_mut" and self_field(e) == "reservoir"]
+        if gm and not stores:
+            # `if let Some(slot) = reservoir.get_mut(j) { *slot = obj }`: the lookup happens on both outcomes, the store through the
+            # slot reference only on the accepting one
+            real = [e for e in p.events if e["kind"] == "write" and e["how"] == "store" and self_field(e) == "reservoir"]
+            stores = gm[:1] if real else []
         if acc[0][1] and not (len(stores) == 1 and stores[0]["args"][1] == j):
             probs.append("accepted item is not written to slot j")
         if not acc[0][1] and stores:
@@ -93,6 +101,18 @@ def run(ctx):
     gap_offsets, gap_span = [], []
     for p in cls["gap-hit"]:
         stores = [e for e in p.events if e["kind"] == "write" and e.get("name") == "index_mut" and self_field(e) == "reservoir"]
+        gm = [e for e in p.events if e["kind"] == "write" and e.get("name") == "get_mut" and self_field(e) == "reservoir"]
+        if gm and not stores:
+            # `if let Some(slot) = reservoir.get_mut(j) { *slot = item }` with j drawn from 0..k: the reservoir holds k items in this
+            # phase, so the None outcome (j >= len) cannot happen — that path is not a path of the program
+            from .common import full_reservoir_facts
+            j_ = gm[0]["args"][1]
+            drawn = j_[0] == "call" and j_[1].endswith("gen_range") and range_cardinality(j_[2][1]) == k_f and range_start(j_[2][1]) == const(0)
+            fdg = {repr(c_): t_ for c_, t_ in full_reservoir_facts(pe.path_facts(p))}
+            if drawn and fv(fdg, mk("Lt", j_, k_f)) is False:
+                continue
+            if [e for e in p.events if e["kind"] == "write" and e["how"] == "store" and self_field(e) == "reservoir"]:
+                stores = gm[:1]
         if len(stores) != 1:
             probs_slot.append("%d slot writes on an accepting gap-phase path" % len(stores))
         else:
